@@ -23,7 +23,7 @@ CHECKS.update({
     "C08": ("model_checking", "shm", "TLC model checking of spec/Shm.tla (accounting invariants) + TLC -simulate behaviours replayed into the real shm Manager/Disk with state comparison after every step; invariants re-evaluated by TLC on every observed real state; the accounting invariant is proved inductive for every capacity and size function on the skeleton spec/ShmAcct.tla (Apalache) which spec/Shm.tla refines (TLC)",
             "free_space accounting and the capacity bound hold in every reachable state of the bounded model (all interleavings of requests with both halves of page-out callbacks, failing jobs, stale readers) and on every state observed while the real Manager follows TLC-generated behaviours.",
             "TLC part bounded: 3 keys (2,2,3; cap 4) and 2 keys deeper; Apalache part unbounded in capacity and sizes, 4 keys; fake segments and clock, real Disk code; CPython GIL atomicity of unlocked int updates; TLC."),
-    "C09": ("model_checking; the eviction lottery judged as a function incl. equal time stamps (spec/Lottery.tla); concurrent real clients of one real shm server, each on its own keys (sequential behaviour per key as oracle)", "shm", "TLC model checking of spec/Shm.tla (BytesStable, FreshReaderProtected, LockSane, delayed purge, eviction liveness) + behaviour replay into the real Manager with real bytes",
+    "C09": ("model_checking", "shm", "TLC model checking of spec/Shm.tla (BytesStable, FreshReaderProtected, LockSane, delayed purge, eviction liveness) + behaviour replay into the real Manager with real bytes; the eviction lottery judged as a function incl. equal time stamps (spec/Lottery.tla); concurrent real clients of one real shm server, each on its own keys (sequential behaviour per key as oracle)",
             "Byte stability, reader protection, delayed purge and eviction progress hold in the bounded model and on the real object for every replayed behaviour; bytes are real (segments and page files compared with what the writer wrote).",
             "As C08."),
 })
@@ -78,13 +78,13 @@ CHECKS.update({
 })
 
 CHECKS.update({
-    "C07": ("model_checking; commands built by the real Bridge; concurrent real shm clients (the data server's pool threads share one process)", "transfer", "TLC model checking of spec/Transfer.tla (safety + eventual completion under fairness) + TLC -simulate behaviours replayed into two real DataServer objects and a real controller Listener with real payload bytes",
+    "C07": ("model_checking", "transfer", "TLC model checking of spec/Transfer.tla (safety + eventual completion under fairness) + TLC -simulate behaviours replayed into two real DataServer objects and a real controller Listener with real payload bytes; commands built by the real Bridge; concurrent real shm clients (the pool threads of the data server share one process)",
             "One byte-identical copy, at most one announcement per host and dataset, exact fetches, no resurrection after purge and no data-server failure hold for every loss/duplication/retry pattern of payload and confirmation frames within the bounds; the real data servers follow TLC-generated behaviours step by step (stores incl. bytes and deser_fun, awaiting_confirmation, futures, acks, invalid, Listener.acked, frames in flight, announcements, fetched payloads, failures); the purge handler really blocks in wait() until the behaviour completes the running futures.",
             "Bounds: 2 hosts + controller, 1-2 datasets, command sequences of 3-4 commands issued as the controller may issue them (C04), <=3 faults, <=2 identical frames in flight; commands/purges delivered exactly once (C06); thread-pool capacity not modelled; harness fakes for network, shm dict, futures, clock."),
 })
 
 CHECKS.update({
-    "C05": ("model_checking; shutdown handshake of spec/Session.tla replayed into the real Bridge", "failure", "TLC liveness checking of spec/Failure.tla (detection / report / teardown state machine) + TLC-enumerated fault scenarios run on real clusters (real executor, shm server, data server and worker processes, real Bridge and controller) and judged by the spec's post-condition",
+    "C05": ("model_checking", "failure", "TLC liveness checking of spec/Failure.tla (detection / report / teardown state machine) + TLC-enumerated fault scenarios run on real clusters (real executor, shm server, data server and worker processes, real Bridge and controller) and judged by the spec's post-condition; shutdown handshake of spec/Session.tla replayed into the real Bridge",
             "Every fault of the model (task raises; worker, data server or shm server dies with zero or non-zero status before, between or after the outputs) leads to the run ending and the executor and its children being gone; on real process trees every enumerated scenario ends within the deadline, with an error when an output is lost, never with a wrong value, leaving no process of the run and no shm segment.",
             "'Bounded time' is a 20-30 s deadline (healthy runs take 1-3 s); faults injected from the task body; clusters 1x1, 1x2, 2x1; real time and real processes, so a result can in principle depend on machine load (a hang that is not the controller waiting in recv_events is re-run once)."),
 })
